@@ -761,6 +761,60 @@ def rule_window(facts):
                       "holding exactly dict_size bytes at that moment" % bad, pat.where(st, blk.idx))
             else:
                 r.ok("evaluation", {"set": "buf grows to a length in [index + 1, dict_size]"})
+    # the match byte: last_n(dist) reads the cell dist positions before the cursor, modulo dict_size, for every cursor position
+    # (in particular dist == cursor and dist > cursor after a wrap) - by gated evaluation of the index handed to get()
+    ln_b = next((x for x in facts.bodies if x.promoted is None and x.trait == "decode::lzbuffer::LzBuffer" and
+                 x.item == "last_n" and "Circular" in x.name), None)
+    if ln_b is not None:
+        from engine.flow import PosTerms as _PT
+        ptn = _PT(ln_b)
+        cn_ = cfg(ln_b)
+        gets = [blk for blk in ln_b.calls() if blk.idx in cn_.reach and ((flow.callee(blk.term) or "").endswith("LzCircularBuffer::get") or
+                                                                           ((flow.callee(blk.term) or "").endswith("Index>::index") and
+                                                                            pat.has_field(ptn.at(blk.idx, None).of_operand(blk.term.args[0]), "buf")))]
+        r.sites += 1
+        if len(gets) == 1 and len(gets[0].term.args) >= 2:
+            g_ = gets[0]
+            badn = None
+            try:
+                for D in (4, 6):
+                    for cur in range(D):
+                        for dist in range(1, D + 1):
+                            def leafn(q, D=D, cur=cur, dist=dist):
+                                if q[0] == "field" and q[1] == "dict_size":
+                                    return D
+                                if q[0] == "field" and q[1] == "cursor":
+                                    return cur
+                                if q[0] == "field" and q[1] == "len":
+                                    return cur + 2 * D          # the window has wrapped: every distance up to dict_size is legal
+                                if q[0] == "arg" and q[2] == "dist":
+                                    return dist
+                                raise pat.NotEvaluable(q)
+                            op_ = g_.term.args[1]
+                            if op_.place is not None and not op_.place.proj:
+                                got = pat.eval_gated(ln_b, ptn, op_.place.local, g_.idx, leafn)
+                            else:
+                                got = pat.eval_term(ptn.at(g_.idx, None).of_operand(op_), leafn)
+                            if got != (D + cur - dist) % D:
+                                badn = "with dict_size %d, cursor %d and distance %d the match byte is read from cell %d, expected cell %d" % (
+                                    D, cur, dist, got, (D + cur - dist) % D)
+                                break
+                        if badn:
+                            break
+                    if badn:
+                        break
+            except pat.Overflow:
+                badn = "the index of the match byte overflows for some (cursor, distance)"
+            except pat.NotEvaluable:
+                badn = None
+                r.bad("last_n|term", "cannot evaluate which cell last_n reads", pat.where(ln_b), "unverifiable")
+            else:
+                if badn:
+                    r.bad("last_n|cell", badn + ": after the window has wrapped the matched-literal context is wrong", pat.where(ln_b, g_.idx))
+                else:
+                    r.ok("evaluation", {"last_n": "buf[(dict_size + cursor - dist) % dict_size] for every cursor / distance"})
+        else:
+            r.bad("last_n|shape", "cannot find the single cell access of last_n", pat.where(ln_b), "unverifiable")
     # the previous byte (literal context): nothing produced -> the default; otherwise the cell before the cursor, modulo dict_size
     lo = next((x for x in facts.bodies if x.promoted is None and x.trait == "decode::lzbuffer::LzBuffer" and
                x.item == "last_or" and "Circular" in x.name), None)
